@@ -41,6 +41,7 @@ pub struct Profile {
     /// (in the writer worlds, C11 - C14, a scenario may then also hold the same step twice; the
     /// runner-world reference model attributes outcomes by step text and is not given such plans).
     pub positionless_pm: u64,
+    pub repeat_steps: bool,
 }
 
 impl Profile {
@@ -63,8 +64,9 @@ impl Profile {
             tracing: false,
             no_failures: false,
             spicy: false,
-            dup_names_pm: 0,
+            dup_names_pm: 60,
             positionless_pm: 60,
+            repeat_steps: false,
         }
     }
 
@@ -119,10 +121,12 @@ impl Profile {
             "C11" | "C12" | "C13" => {
                 p.dup_names_pm = 120;
                 p.positionless_pm = 120;
+                p.repeat_steps = true;
             }
             "C14" => {
                 p.dup_names_pm = 120;
                 p.positionless_pm = 120;
+                p.repeat_steps = true;
                 p.spicy = true;
                 p.hooks_pm = 700;
                 p.retries_pm = 600;
@@ -238,10 +242,10 @@ pub fn gen_plan(seed: u64, prof: &Profile) -> Plan {
     // ---- features
     let mut features = Vec::new();
     let mut budget = max_sc;
-    let dup_names = prof.dup_names_pm > 0 && r.chance(prof.dup_names_pm, 1000);
+    let dup_names = r.chance(prof.dup_names_pm, 1000);
     // features as a custom parser / typed builders produce them: all positions 0:0
     let positionless = r.chance(prof.positionless_pm, 1000);
-    let mut c = Ctx { r: &mut r, p: prof, undefined, doc_strings: prof.spicy, spicy_names: prof.spicy, repeat_steps: positionless && prof.dup_names_pm > 0 };
+    let mut c = Ctx { r: &mut r, p: prof, undefined, doc_strings: prof.spicy, spicy_names: prof.spicy, repeat_steps: positionless && prof.repeat_steps };
     let _ = c.p;
     for fi in 0..n_feat {
         let fid = ident("F", fi);
